@@ -14,6 +14,11 @@ Three workloads on the real IOLoop (AsyncIOLoop over asyncio):
 "thr"    (REAL loop, REAL threads, yield injection in add_callback) several
          threads + the loop thread itself call add_callback concurrently; each
          callback runs exactly once on the loop thread, per-thread order kept.
+         A producer thread is either a plain thread or one that RUNS ITS OWN
+         event loop (asyncio.run coroutine / call_soon callback chain of a
+         second asyncio loop / a second tornado IOLoop) and calls the target's
+         add_callback from inside that loop's coroutine or callback ("any
+         other thread" includes threads in which some other loop is running).
          No verdict is taken from elapsed time: a lost wake-up is reported only
          with a structural stuck-state witness (all producers joined, loop
          thread parked in select with timeout None, loop._ready non-empty,
@@ -46,7 +51,11 @@ META = {
                   "exactly-once, FIFO callbacks, deadline order, not-before-deadline (4 ulp of the epoch-scale clock), "
                   "never-after-remove, error logging without loop stop, add_future never inline; run_sync result/exception/"
                   "TimeoutError+cancellation. add_callback from 2-8 real threads plus the loop thread under yield injection: "
-                  "exactly once, per-thread order, on the loop thread, no lost wake-up.",
+                  "exactly once, per-thread order, on the loop thread, no lost wake-up. Producer threads are plain threads or "
+                  "threads that run an event loop of their own (asyncio.run coroutine, call_soon chain of a second asyncio loop, "
+                  "a second tornado IOLoop started or under run_sync) and call the target's add_callback from inside that loop's "
+                  "coroutine/callback, all-own-loop, mixed, or own-loop producers last, while the target loop is observed idle "
+                  "in its selector, racing, or not yet started.",
     "level_note": "Interleavings of the threaded part are sampled (distinct executed-thread-sequences are counted in evidence). "
                   "A deadline already past when the scheduling call is made is read as 'due at the call': a pair of timeouts is gated "
                   "when written and effective (max(deadline, time of the call)) deadlines order it the same way by > 8 ulp; pairs "
@@ -60,7 +69,8 @@ RULE = ("prog: random trees of <=12 scheduling units over {add_callback, spawn_c
         "inside a callback / the main step so pending deadlines pass)}, deadlines relative to now (incl. negative, "
         "several magnitudes) or anchored at the program start (past by the time of the call); non-trivial if it has >=2 timeouts with distinct "
         "deadlines or a removal or an error-raising unit, and >=4 units; sync: run_sync (function kind x outcome x timeout); "
-        "thr: (threads, callbacks per thread, start phase, shake seed), non-trivial if >=2 producer threads; distinct by case tuple")
+        "thr: (threads, callbacks per thread, start phase, per-thread producer flavour plain|aio_coro|aio_cb|ioloop|ioloop_sync, "
+        "yield chunk, own-loop-producers-last, shake seed), non-trivial if >=2 producer threads; distinct by case tuple")
 FLOORS = {"quick": 1500, "thorough": 60000}
 ASSUMPTIONS = [
     "virtual loop only for the single-threaded programs; threaded part on a real selector loop",
@@ -70,7 +80,8 @@ ASSUMPTIONS = [
 REQUIRED_COUNTERS = ["oracle_evals", "prog_units_run", "timeouts_run", "removed_before_run", "error_units_logged",
                      "add_future_callbacks", "deadline_order_pairs", "deadline_order_pairs_past_when_scheduled",
                      "deadline_order_pairs_late_added_to_overdue_pending", "busy_steps", "run_sync_evals", "run_sync_timeouts",
-                     "thr_runs", "thr_callbacks", "thr_parked_starts"]
+                     "thr_runs", "thr_callbacks", "thr_parked_starts", "thr_own_loop_producer_runs",
+                     "thr_parked_own_loop_starts"]
 SHARD_TIMEOUT = {"quick": 200, "thorough": 3000}
 
 TOL = 4 * math.ulp(vloop.EPOCH)
@@ -165,13 +176,38 @@ def gen_sync(rng):
             "again": rng.random() < 0.5}
 
 
+# what the producer thread is doing when it calls the target loop's add_callback:
+#  plain     ordinary thread, no event loop
+#  aio_coro  inside a coroutine driven by asyncio.run() in that thread (yields to its own loop every `chunk` calls)
+#  aio_cb    inside a call_soon callback chain of an asyncio loop run with run_forever() in that thread
+#  ioloop    inside an add_callback callback chain of a second tornado IOLoop started in that thread
+#  ioloop_sync  inside a coroutine driven by a second tornado IOLoop's run_sync in that thread
+OWN_LOOP_FLAVORS = ["aio_coro", "aio_cb", "ioloop", "ioloop_sync"]
+FLAVORS = ["plain"] + OWN_LOOP_FLAVORS
+
+
 def gen_thr(rng, maxm):
     T = rng.randint(2, 8)
-    return {"k": "thr", "T": T, "M": rng.choice([100, 150, 300, maxm // 2, maxm]),
+    case = {"k": "thr", "T": T, "M": rng.choice([100, 150, 300, maxm // 2, maxm]),
             "phase": rng.choice(["parked", "parked", "racing", "before"]),
             "loop_producer": rng.random() < 0.5,
             "p_yield": rng.choice([0.1, 0.3, 0.5]), "p_sleep": rng.choice([0.005, 0.02, 0.05]),
             "sseed": rng.randrange(1 << 30)}
+    mode = rng.choice(["plain", "plain", "own", "own", "mixed", "mixed_last_own"])
+    if mode == "plain":
+        fl = ["plain"] * T
+    elif mode == "own":
+        # every producer runs a loop of its own (one flavour, or one per thread)
+        one = rng.choice(OWN_LOOP_FLAVORS + [None])
+        fl = [one or rng.choice(OWN_LOOP_FLAVORS) for _ in range(T)]
+    else:
+        fl = [rng.choice(FLAVORS) for _ in range(T)]
+    case["flavors"] = fl
+    case["chunk"] = rng.choice([1, 7, 50, 1000000])
+    # mixed_last_own: the plain producers are joined before the own-loop ones start (the last calls made to the
+    # idle loop come from threads that run another loop)
+    case["own_last"] = mode == "mixed_last_own"
+    return case
 
 
 def gen_cases(spec):
@@ -202,6 +238,12 @@ def directed_cases():
     yield {"k": "prog", "ops": [("to", 1, "at", 0.005, B), ("to", 2, "td", 0.02, B), ("busy", 0.06),
                                 ("to", 3, "abs", 0.01, B, "t0"), ("to", 4, "later", 0.03, B, "t0"), ("cb", 5, B),
                                 ("sleep", 0.0)]}
+    # target loop idle in its selector; every call comes from a thread that runs another event loop
+    for i, fl in enumerate(OWN_LOOP_FLAVORS):
+        yield {"k": "thr", "T": 2, "M": 40, "phase": "parked", "loop_producer": False, "p_yield": 0.1, "p_sleep": 0.005,
+               "sseed": 11 + i, "flavors": [fl, fl], "chunk": [1, 7, 50, 1000000][i], "own_last": False}
+    yield {"k": "thr", "T": 3, "M": 40, "phase": "parked", "loop_producer": False, "p_yield": 0.1, "p_sleep": 0.005,
+           "sseed": 17, "flavors": ["plain", "aio_coro", "ioloop"], "chunk": 7, "own_last": True}
     yield {"k": "sync", "kind": "coro_value", "dur": 2.0, "timeout": 0.1, "pre_raiser": True, "again": True}
     # zero timeout is a timeout (boundary: `if timeout:` vs `if timeout is not None:`)
     yield {"k": "sync", "kind": "coro_value", "dur": 0.4, "timeout": 0, "pre_raiser": False, "again": True}
@@ -674,9 +716,86 @@ def run_thr(case, ctx):
     ntot = T * M + (M if lp else 0)
     mon.total = ntot
 
-    def producer(tid):
-        for s in range(M):
+    flavors = case.get("flavors") or ["plain"] * T
+    chunk_n = case.get("chunk", 50)
+    prod_errs = []
+
+    add_errs = []
+
+    def add(tid, s):
+        try:
             io.add_callback(mon.rec, tid, s)
+        except BaseException as e:
+            add_errs.append((tid, flavors[tid], s, repr(e)[:300]))
+            raise
+
+    def producer(tid):
+        fl = flavors[tid]
+        try:
+            if fl == "plain":
+                for s in range(M):
+                    add(tid, s)
+            elif fl == "aio_coro":
+                # the calls are made from inside a coroutine of another asyncio loop running in this thread
+                async def inner():
+                    for s in range(M):
+                        add(tid, s)
+                        if (s + 1) % chunk_n == 0:
+                            await asyncio.sleep(0)
+                asyncio.run(inner())
+            elif fl == "aio_cb":
+                # ... from a call_soon callback chain of another asyncio loop
+                l2 = asyncio.new_event_loop()
+                st = {"s": 0}
+
+                def step():
+                    for _ in range(chunk_n):
+                        if st["s"] >= M:
+                            l2.stop()
+                            return
+                        add(tid, st["s"])
+                        st["s"] += 1
+                    l2.call_soon(step)
+                l2.call_soon(step)
+                try:
+                    l2.run_forever()
+                finally:
+                    l2.close()
+            elif fl == "ioloop":
+                # ... from an add_callback callback chain of a second tornado IOLoop
+                io2 = AsyncIOLoop(make_current=False)
+                st = {"s": 0}
+
+                def step2():
+                    for _ in range(chunk_n):
+                        if st["s"] >= M:
+                            io2.stop()
+                            return
+                        add(tid, st["s"])
+                        st["s"] += 1
+                    io2.add_callback(step2)
+                io2.add_callback(step2)
+                try:
+                    io2.start()
+                finally:
+                    io2.close(all_fds=True)
+            elif fl == "ioloop_sync":
+                # ... from a coroutine under a second tornado IOLoop's run_sync
+                io2 = AsyncIOLoop(make_current=False)
+
+                async def inner2():
+                    for s in range(M):
+                        add(tid, s)
+                        if (s + 1) % chunk_n == 0:
+                            await gen.sleep(0)
+                try:
+                    io2.run_sync(inner2)
+                finally:
+                    io2.close(all_fds=True)
+            else:
+                raise ValueError(fl)
+        except BaseException as e:      # a producer must not die silently (would read as callback-never-ran)
+            prod_errs.append((tid, fl, repr(e)[:300]))
 
     def loop_producer():
         # the loop thread adds its own callbacks (call_soon path) in chunks while the others race
@@ -720,11 +839,22 @@ def run_thr(case, ctx):
                     time.sleep(0.001)
                 else:
                     inconclusive = "loop thread never observed parked before producers"
-            for t in threads:
+                if any(f != "plain" for f in flavors):
+                    ctx.count("thr_parked_own_loop_starts")
+            first = threads
+            if case.get("own_last"):
+                # plain producers run to completion first; the loop is then left to the own-loop producers alone
+                first = [t for i, t in enumerate(threads) if flavors[i] == "plain"]
+            for t in first:
                 t.start()
             if lp:
                 aloop.call_soon_threadsafe(loop_producer)      # harness channel, not the method under test
-            for t in threads:
+            for t in first:
+                t.join()
+            rest = [t for t in threads if t not in first]
+            for t in rest:
+                t.start()
+            for t in rest:
                 t.join()
         # all producers have returned from add_callback: from here a stuck loop is permanent
         stable, last = 0, -1
@@ -767,6 +897,21 @@ def run_thr(case, ctx):
             except Exception:
                 pass
     ctx.count("thr_runs")
+    n_own = sum(1 for f in flavors if f != "plain")
+    if n_own:
+        ctx.count("thr_own_loop_producer_runs")
+        ctx.count("thr_own_loop_producers", n_own)
+        for f in set(flavors) - {"plain"}:
+            ctx.count("thr_flavor_" + f)
+    if add_errs:
+        ctx.violation("thr/add_callback-raised-in-producer-thread",
+                      "add_callback raised in a producer thread although the target loop was open (that callback can never run)",
+                      {"errors": add_errs[:3]})
+        return
+    if prod_errs:
+        # the producer's own loop (harness) failed: nothing can be said about the schedule
+        ctx.count("thr_inconclusive")
+        raise RuntimeError("INCONCLUSIVE thr run: producer thread failed outside add_callback: " + repr(prod_errs[:3]))
     ctx.count("shake_lines", sh.lines)
     ctx.count("shake_sleeps", sh.sleeps + sh.yields)
     if witness is not None:
@@ -806,8 +951,9 @@ def run_thr(case, ctx):
         # how mixed was it: number of thread switches in the executed sequence
         sw = sum(1 for a, b in zip(ex, ex[1:]) if a[0] != b[0])
         ctx.count("thr_thread_switches_in_execution", sw)
-    ctx.mark(("thr", T, M, case["phase"], case["loop_producer"], case["p_yield"], case["p_sleep"], case["sseed"]), T >= 2)
-    ctx.sample({k: case[k] for k in ("T", "M", "phase", "loop_producer")}, limit=1)
+    ctx.mark(("thr", T, M, case["phase"], case["loop_producer"], case["p_yield"], case["p_sleep"], case["sseed"],
+              tuple(flavors), chunk_n, bool(case.get("own_last"))), T >= 2)
+    ctx.sample({k: case.get(k) for k in ("T", "M", "phase", "loop_producer", "flavors", "chunk", "own_last")}, limit=1)
 
 
 def run_case(case, ctx):
